@@ -34,7 +34,7 @@ pub mod streaming_kzg {
             invariant powers@.len() == len, it.index@ <= len || len == 0,
                 forall|j: int| 0 <= j < len ==> (j <= it.index@ ==> (#[trigger] powers@[j])@ == f_pow(element@, j as nat)),
                 forall|j: int| it.index@ < j < len ==> (#[trigger] powers@[j])@ == f_one(),
-//@at /for i in 1\.\.len \{/
+//@loopstart 1
             proof { broadcast use ax_mul_comm; }
 //@end
     // R: `vec![F::one(); len]`
@@ -107,7 +107,7 @@ pub mod streaming_kzg {
                 invariant it.index@ <= polynomial@.len(), quotient@.len() == it.index@,
                     previous@ == horner(fviews(polynomial@), evalualtion_point@, it.index@ as nat),
                     forall|j: int| 0 <= j < it.index@ ==> (#[trigger] quotient@[j])@ == horner(fviews(polynomial@), evalualtion_point@, (it.index@ - j) as nat),
-//@at /for &c in polynomial\.iter\(\)\.rev\(\) \{/
+//@loopstart 1
                 let c = *c__;
 //@before /let evaluation_proof =/
             proof {
@@ -149,7 +149,7 @@ pub mod streaming_kzg {
 //@rw 1 /let chunk_size = 1 << challenges_len;/ => let chunk_size: usize = 1 << challenges_len;
 //@after /let chunk_size =/
         proof { vstd::arithmetic::power2::lemma_pow2_strictly_increases(challenges_len as nat, 64); vstd::arithmetic::power2::lemma2_to64(); vstd::arithmetic::power2::lemma_pow2_pos(challenges_len as nat); vstd::bits::lemma_usize_shl_is_mul(1usize, challenges_len); }
-//@after /let mut delta =/
+//@after /let (mut )?delta =/
         let ghost delta0 = delta as nat;
 //@loop 1 kw=for name=it
                 invariant challenges_len < 64, it.index@ <= challenges_len,
@@ -157,7 +157,7 @@ pub mod streaming_kzg {
                     delta + stack_sum(stack@, stack@.len()) == delta0,
                     forall|j: int| 0 <= j < stack@.len() ==> (#[trigger] stack@[j]).0 < challenges_len && stack@[j].1@ == f_zero() && stack@[j].0 >= challenges_len - it.index@,
                     forall|a: int, b: int| 0 <= a < b < stack@.len() ==> stack@[a].0 > stack@[b].0,
-//@at /for i in \(0\.\.challenges_len\)\.rev\(\) \{/
+//@loopstart 1
                 proof {
                     assert(i == challenges_len - 1 - it.index@);
                     vstd::arithmetic::power2::lemma_pow2_strictly_increases(i as nat, 64); vstd::arithmetic::power2::lemma2_to64();
